@@ -153,7 +153,14 @@ func allocStores(a *ssa.Alloc) []*ssa.Store {
 
 // strip looks through value-preserving wrappers: ChangeInterface, ChangeType, MakeInterface,
 // loads of single-store local allocs, phis whose operands all resolve to one value.
+var stripDepth int
+
 func strip(v ssa.Value) ssa.Value {
+	if stripDepth > 12 {
+		return v // mutually recursive phis: give up, the value stands for itself
+	}
+	stripDepth++
+	defer func() { stripDepth-- }()
 	for i := 0; i < 32; i++ {
 		switch x := v.(type) {
 		case *ssa.ChangeInterface:
